@@ -650,6 +650,8 @@ def inertKidsView : List Tmpl → List Node
   | .comp _ :: ts => inertKidsView ts
   | .comment _ :: ts => inertKidsView ts
   | .doctype :: ts => inertKidsView ts
+  | .unit :: ts => inertKidsView ts
+  | .compA _ _ _ :: ts => inertKidsView ts
 
 def inertView : Tmpl → Node
   | .elem tag attrs kids =>
@@ -660,6 +662,8 @@ def inertView : Tmpl → Node
   | .comp _ => .text []
   | .comment _ => .text []
   | .doctype => .text []
+  | .unit => .text []
+  | .compA _ _ _ => .text []
 
 
 /-! ### well-formed templates (hypothesis of the main theorems) -/
@@ -685,6 +689,8 @@ def wfT (anc : List Str) : Tmpl → Bool
   | .comp kids => nestOK sSection anc && wfTs (sSection :: anc) kids
   | .comment _ => true
   | .doctype => false
+  | .unit => false
+  | .compA _ _ _ => false
 def wfTs (anc : List Str) : List Tmpl → Bool
   | [] => true
   | t :: ts => wfT anc t && wfTs anc ts
@@ -777,6 +783,8 @@ theorem good_inertKids : (ks : List Tmpl) → Good (inertKidsView ks)
   | .comp _ :: ts => by simpa [inertKidsView] using good_inertKids ts
   | .comment _ :: ts => by simpa [inertKidsView] using good_inertKids ts
   | .doctype :: ts => by simpa [inertKidsView] using good_inertKids ts
+  | .unit :: ts => by simpa [inertKidsView] using good_inertKids ts
+  | .compA _ _ _ :: ts => by simpa [inertKidsView] using good_inertKids ts
 
 theorem escapeWith_append (tbl : List (Char × Str)) (a b : Str) :
     escapeWith tbl (a ++ b) = escapeWith tbl a ++ escapeWith tbl b := by
@@ -1106,6 +1114,8 @@ theorem inert_html : (ks : List Tmpl) → ∀ (anc : List Str), wfTs anc ks = tr
   | .comp k :: ts, _, _, hi => by simp [inertKids, inertNode] at hi
   | .comment _ :: ts, _, _, hi => by simp [inertKids, inertNode] at hi
   | .doctype :: ts, _, _, hi => by simp [inertKids, inertNode] at hi
+  | .unit :: ts, _, _, hi => by simp [inertKids, inertNode] at hi
+  | .compA _ _ _ :: ts, _, _, hi => by simp [inertKids, inertNode] at hi
   | .elem tag attrs kids :: ts, anc, hw, hi => by
     simp only [wfTs, wfT, Bool.and_eq_true, Bool.or_eq_true] at hw
     obtain ⟨⟨⟨hattrs, hnest⟩, hcase⟩, hts⟩ := hw
@@ -1156,6 +1166,8 @@ theorem inert_struct : (ks : List Tmpl) → ∀ (anc : List Str), wfTs anc ks = 
   | .comp k :: ts, _, _, hi => by simp [inertKids, inertNode] at hi
   | .comment _ :: ts, _, _, hi => by simp [inertKids, inertNode] at hi
   | .doctype :: ts, _, _, hi => by simp [inertKids, inertNode] at hi
+  | .unit :: ts, _, _, hi => by simp [inertKids, inertNode] at hi
+  | .compA _ _ _ :: ts, _, _, hi => by simp [inertKids, inertNode] at hi
   | .elem tag attrs kids :: ts, anc, hw, hi => by
     intro Q
     simp only [wfTs, wfT, Bool.and_eq_true, Bool.or_eq_true] at hw
@@ -1218,6 +1230,8 @@ theorem inert_wf : (ks : List Tmpl) → ∀ (anc : List Str), wfTs anc ks = true
   | .comp k :: ts, _, _, hi => by simp [inertKids, inertNode] at hi
   | .comment _ :: ts, _, _, hi => by simp [inertKids, inertNode] at hi
   | .doctype :: ts, _, _, hi => by simp [inertKids, inertNode] at hi
+  | .unit :: ts, _, _, hi => by simp [inertKids, inertNode] at hi
+  | .compA _ _ _ :: ts, _, _, hi => by simp [inertKids, inertNode] at hi
   | .elem tag attrs kids :: ts, anc, hw, hi => by
     simp only [wfTs, wfT, Bool.and_eq_true, Bool.or_eq_true] at hw
     obtain ⟨⟨⟨hattrs, hnest⟩, hcase⟩, hts⟩ := hw
@@ -1255,6 +1269,8 @@ def viewOf (ui top : Bool) : Tmpl → List Node
   | .comp kids => [.elem sSection [] (viewKids ui true kids)]
   | .comment _ => []
   | .doctype => []
+  | .unit => []
+  | .compA card attrs kids => [compNode card (attrs.map builderAttr) (viewKids ui true kids)]
 def viewKids (ui top : Bool) : List Tmpl → List Node
   | [] => []
   | t :: ts => viewOf ui top t ++ viewKids ui top ts
@@ -1269,6 +1285,8 @@ theorem builderView_eq : (t : Tmpl) → ∀ top, builderView t = viewOf false to
   | .comp kids, _ => by simp [builderView, viewOf, builderKids_eq kids true]
   | .comment _, _ => by simp [builderView, viewOf]
   | .doctype, _ => by simp [builderView, viewOf]
+  | .unit, _ => by simp [builderView, viewOf]
+  | .compA card attrs kids, _ => by simp [builderView, viewOf, builderKids_eq kids true]
 theorem builderKids_eq : (ts : List Tmpl) → ∀ top, builderKids ts = viewKids false top ts
   | [], _ => by simp [builderKids, viewKids]
   | t :: ts, top => by simp [builderKids, viewKids, builderView_eq t top, builderKids_eq ts top]
@@ -1348,6 +1366,8 @@ theorem wf_view : (t : Tmpl) → ∀ (ui top : Bool) (anc : List Str), wfT anc t
     simp [viewOf, wfKids, wfNode, attrsOK_nil, h.1, genericOK_section, ihk]
   | .comment _, _, _, _, _ => by simp [viewOf, wfKids]
   | .doctype, _, _, _, h => by simp [wfT] at h
+  | .unit, _, _, _, h => by simp [wfT] at h
+  | .compA _ _ _, _, _, _, h => by simp [wfT] at h
 theorem wf_viewKids : (ts : List Tmpl) → ∀ (ui top : Bool) (anc : List Str), wfTs anc ts = true →
     wfKids anc (viewKids ui top ts) = true
   | [], _, _, _, _ => by simp [viewKids, wfKids]
@@ -1435,6 +1455,8 @@ theorem struct_view : (t : Tmpl) → ∀ (ui top : Bool) (anc : List Str), wfT a
     simp [viewOf, structKids, structNode, f1, f2, this, normList, normNode, pushNorm, normAttrs_nil, denK, ihk]
   | .comment _, _, _, _, _ => by intro pos Q; simp [viewOf, structKids, denK]
   | .doctype, _, _, _, h => by simp [wfT] at h
+  | .unit, _, _, _, h => by simp [wfT] at h
+  | .compA _ _ _, _, _, _, h => by simp [wfT] at h
 theorem struct_viewKids : (ts : List Tmpl) → ∀ (ui top : Bool) (anc : List Str), wfTs anc ts = true →
     ∀ (pos : Pos) (Q : List Tree), normList (structKids pos (viewKids ui top ts) ++ Q) = denKs true ts (normList Q)
   | [], _, _, _, _ => by intro pos Q; simp [viewKids, structKids, denKs]
@@ -1543,6 +1565,8 @@ theorem rel_view : (t : Tmpl) → ∀ (top : Bool) (anc : List Str), wfT anc t =
     simp [expHtml, nodeHtml, f1, f2, this, ihk, elemBody_eq sSection _ (Or.inl hs)]
   | .comment _, _, _, _ => by simp only [expand, viewOf]; exact Rel.nil
   | .doctype, _, _, h => by simp [wfT] at h
+  | .unit, _, _, h => by simp [wfT] at h
+  | .compA _ _ _, _, _, h => by simp [wfT] at h
 theorem rel_viewKids : (ts : List Tmpl) → ∀ (top : Bool) (anc : List Str), wfTs anc ts = true →
     Rel (expandKids top ts) (viewKids true top ts)
   | [], _, _, _ => by simp only [expandKids, viewKids]; exact Rel.nil
@@ -1612,6 +1636,8 @@ theorem seen_ok : (t : Tmpl) → ∀ (top esc : Bool) (anc : List Str), wfT anc 
     exact ih
   | .comment _, _, _, _, _ => by simp [seenNode]
   | .doctype, _, _, _, _ => by simp [seenNode]
+  | .unit, _, _, _, _ => by simp [seenNode]
+  | .compA _ _ _, _, _, _, h => by simp [wfT] at h
 theorem seen_ok_kids : (ts : List Tmpl) → ∀ (top esc : Bool) (anc : List Str), wfTs anc ts = true →
     (seenKids top esc ts).all (fun s => !s.rawMarker) = true
   | [], _, _, _, _ => by simp [seenKids]
